@@ -50,6 +50,7 @@ type Opaque struct {
 }
 
 type ChanV struct {
+	Ticks  int
 	Kind   string // "ticker", "done", "plain"
 	Buf    []Value
 	Closed bool
